@@ -41,6 +41,27 @@ def spy_kernel():
     return Spy(525.0)
 
 
+def yield_zeroing_kernel():
+    """reference in the implementation language: the CLOUD-FREE kernel whose per-segment photon yield is zeroed for the
+    segments below a chosen altitude -- 'the model evaluated with all light emitted below the cloud top removed'."""
+    import nuspacesim.simulation.eas_optical.cphotang as cp
+
+    cp.cppzsteps = zb.zsteps
+
+    class Zero(cp.CphotAng):
+        cut = -math.inf
+        used = False
+
+        def sphoton_yeild(self, thetaC, RN, delgram, ZonZ, z, ThetPrpA):
+            y = super().sphoton_yeild(thetaC, RN, delgram, ZonZ, z, ThetPrpA)
+            type(self).used = True
+            y = np.array(y, copy=True)
+            y[np.asarray(z) < self.cut, ...] = 0
+            return y
+
+    return Zero(525.0)
+
+
 def events(tier):
     bs = [math.radians(x) for x in ((1.0, 5.0, 20.0, 40.0) if tier == "quick" else (1.0, 3.0, 5.0, 10.0, 20.0, 40.0))]
     als = [0.0, 2.0, 8.0, 15.0] if tier == "quick" else [0.0, 0.5, 2.0, 5.0, 8.0, 15.0]
@@ -94,6 +115,16 @@ def judge_event(ev):
                 oka = any((ra == 0 and ang == 0) or (ra > 0 and abs(ang - ra) <= 0.01 * ra) for _, ra in (lo, hi))
                 if not okd:
                     out.append(("light_below_cloud_removed_density", ct, [lo[0], hi[0]], d))
+                # sharp form of the same clause: the cloud-free kernel with the yield of the segments below the cloud top
+                # zeroed (everything else, in particular the position of shower maximum, as in the cloud-free shower)
+                zk = yield_zeroing_kernel()
+                zk.cut = ct
+                type(zk).used = False
+                zr = zk.run(np.float64(b), np.float64(a), np.float64(E), 0.3, 1.0, None)
+                if type(zk).used:
+                    zd, za = float(zr[0]), float(zr[1])
+                    if not (abs(d - zd) <= 1e-5 * abs(zd) + 1e-30 and abs(ang - za) <= 1e-5 * abs(za) + 1e-30):
+                        out.append(("equals_cloud_free_kernel_with_yield_below_cloud_removed", ct, [zd, za], [d, ang]))
                 # when (almost) no light survives the cloud the per-segment yields underflow single precision and the
                 # yield-weighted angle is immaterial: the angle is judged only where the reference density is representable
                 if not oka and max(lo[0], hi[0]) >= 1e-25:
@@ -208,6 +239,35 @@ def judge_map(month, stride):
     return out, n
 
 
+def judge_map_history(seq):
+    """several CloudTopHeight objects for different months built one after another IN ONE PROCESS: each must read its
+    own month's map (state shared between instances / a cache keyed without the month would show here)."""
+    from astropy.io import fits
+    from importlib.resources import files
+
+    from nuspacesim.simulation.atmosphere.clouds import CloudTopHeight
+    from nuspacesim.simulation.eas_optical import atmospheric_models as atm
+
+    sites = [(12.3, -133.4), (-45.2, 20.1), (60.7, 100.9), (-5.0, -60.0), (80.1, 0.3), (0.2, 179.0)]
+    out = []
+    for m in seq:
+        cfg = sim.make_config(extra={"simulation": {"cloud_model": {"id": "pressure_map", "month": m}}})
+        c = CloudTopHeight(cfg)
+        with fits.open(files("nuspacesim.data.cloud_maps") / f"nss_map_CloudTopPressure_{m:02d}.v0.fits") as h:
+            mp = np.array(h[0].data, dtype=np.float64)
+        lats = np.linspace(-90, 90, mp.shape[0])
+        lons = np.linspace(-180, 180, mp.shape[1])
+        for la, lo in sites:
+            got = float(c(math.radians(la), math.radians(lo)))
+            i1 = int(np.searchsorted(lats, la))
+            j1 = int(np.searchsorted(lons, lo))
+            cands = [float(atm.us_std_atm_altitude_from_pressure(mp[i, j])) for i in (i1 - 1, i1) for j in (j1 - 1, j1)]
+            if not any(abs(got - x) <= 1e-9 * max(1.0, abs(x)) for x in cands):
+                out.append(("map_of_the_configured_month", f"month {m} site {(la, lo)}: one of {cands}", got))
+                break
+    return out
+
+
 def _map_job(a):
     return judge_map(*a)
 
@@ -247,6 +307,10 @@ def run(ctx):
             seen.add((c, tag))
             ctx.violation(c, {"kind": "map", "month": m, "stride": stride, "tag": tag}, e, o)
     ctx.cov["map_lookups"] = nm
+    for seq in ([1, 7, 12, 7, 1, 4], [7, 1], [12, 11, 12]):
+        ctx.tick(6 * len(seq), ("map_history", tuple(seq)))
+        for c, e, o in judge_map_history(seq):
+            ctx.violation(c, {"kind": "map_history", "seq": seq}, e, o)
     ctx.cov["months"] = months
     ctx.sample({"kind": "map", "month": 7, "site_deg": [12.5, -133.4], "input": "radians, longitude in [-pi, pi]"})
 
@@ -258,6 +322,8 @@ def replay(case):
         return [(c, e, o) for c, ct, e, o in v if ct == case["ct"] or (math.isnan(ct) and math.isnan(case["ct"]))]
     if k == "const":
         return judge_constant(case["model"], case["alt"])[0]
+    if k == "map_history":
+        return judge_map_history(case["seq"])
     if k == "map":
         v, _ = judge_map(case["month"], case["stride"])
         return [(c, e, o) for c, tag, e, o in v if tag == case["tag"]]
